@@ -127,7 +127,15 @@ def make_items(tier, seed, shard, nshards):
             from ofxtools.header import make_header
             for version in (102, 203):
                 header = bytes(str(make_header(version=version, newfileuid="NONE")), "utf_8")
-                items.append(("doc", f"OFX/v{version}", header + ET.tostring(tree, encoding="utf_8", method="html")))
+                body = ET.tostring(tree, encoding="utf_8", method="html")
+                items.append(("doc", f"OFX/v{version}", header + body))
+                # documents that are refused before / while the header is read: the caller's stream is still the caller's
+                items.append(("doc", f"OFX/v{version}/no-header", body))
+                if version < 200:
+                    items.append(("doc", f"OFX/v{version}/unknown-charset", header.replace(b"CHARSET:NONE", b"CHARSET:9999") + body))
+                    items.append(("doc", f"OFX/v{version}/undecodable-body", header.replace(b"ENCODING:USASCII", b"ENCODING:UNICODE").replace(b"CHARSET:NONE", b"CHARSET:NONE") + b"<OFX>\xff\xfe</OFX>"))
+                else:
+                    items.append(("doc", f"OFX/v{version}/bad-declaration", header.replace(b'VERSION="', b'VERSION="x') + body))
     und = ET.Element("NOSUCHAGGREGATE"); ET.SubElement(und, "X").text = "1"
     items.append(("tree", "undefined-class", ET.tostring(und)))
     return items
@@ -149,9 +157,14 @@ def outcome(item, problems):
             from ofxtools.Parser import OFXTree
             src = io.BytesIO(data)
             p = OFXTree()
-            p.parse(src)
-            if src.getvalue() != data:
-                problems.append(("frame", label, "parse modified the source bytes", data[:200], src.getvalue()[:200]))
+            try:
+                p.parse(src)
+            finally:
+                # on the failing path too: the stream handed in is the caller's - not closed, not rewritten
+                if src.closed:
+                    problems.append(("frame", label, "parse closed the caller's stream", data[:200], b"<closed>"))
+                elif src.getvalue() != data:
+                    problems.append(("frame", label, "parse modified the source bytes", data[:200], src.getvalue()[:200]))
             root_before = ET.tostring(p._root)
             try:
                 m = p.convert()
